@@ -16,7 +16,7 @@ ID = "C06"
 
 META = {
     "rule": "sub-products: A = family F(n,m) WITHOUT well-posedness filter x every fixed subset (none, one, several, all, fixed landmarks, isolated fixed vertices) x "
-    "fix_first_pose x max_iter alphabet; D = far-off initial guesses (diverging runs) x every fixed subset x max_iter 20; S = solver-fault scripts: every placement of 0, 1 and 2 "
+    "fix_first_pose x max_iter alphabet (SE(3) graphs also with vertex quaternions whose norm is off by 3e-5..1e-4: fixed-pose and flag oracles only); D = far-off initial guesses (diverging runs) x every fixed subset x max_iter 20; S = solver-fault scripts: every placement of 0, 1 and 2 "
     "deviating answers {all-NaN, garbage (1e300/inf) in the free rows, raise} within 5 solver calls x spanning graphs x every non-empty fixed subset; N = every edge replaced by its numerical-Jacobian twin (custom-edge path) x every non-empty fixed subset, one iteration vs the reduced step of the analytic graph; P = all vertices initialised from ONE shared pose object x every fixed subset (compared bitwise with a twin that uses distinct equal objects); H = histories of 2..3 "
     "consecutive optimize calls with every (fixed subset, fix_first_pose) chosen per call. Oracles: fixed poses bitwise unchanged in every outcome incl. exceptions; fixed flags exactly "
     "as documented; well-posed reduced problems: free vertices = reference reduced Gauss-Newton step (1 iteration) / closed-form reduced WLS optimum (R^n) and all poses finite. "
@@ -25,7 +25,7 @@ META = {
         "solver seam = module global graphslam.graph.spsolve; if it is not called the fault sub-product is skipped and evidence says solver_seam_active=false",
         "fault answers are restricted to what a sparse direct solver can produce (NaN vector for singular systems, garbage in coupled rows, an exception); a solver that returns non-zero for decoupled identity rows is not modelled",
     ],
-    "required_classes": ["numeric_twin_edges", "shared_pose_object", "all_fixed", "none_fixed", "isolated_fixed_vertex", "fixed_landmark", "singular_natural", "several_fixed", "fault:nan", "fault:raise", "fault:garbage", "history", "diverged_or_nonfinite", "ffp_true", "ffp_false", "reduced_step_checked", "reduced_wls_checked"],
+    "required_classes": ["nonunit_quaternion_vertices", "numeric_twin_edges", "shared_pose_object", "all_fixed", "none_fixed", "isolated_fixed_vertex", "fixed_landmark", "singular_natural", "several_fixed", "fault:nan", "fault:raise", "fault:garbage", "history", "diverged_or_nonfinite", "ffp_true", "ffp_false", "reduced_step_checked", "reduced_wls_checked"],
     "bounds": {"quick": "A: n=2 m<=2, n=3 m<=2, max_iter in {1,3}; S: 5 solver calls, <=2 deviations; H: 2 calls", "thorough": "A: n=2 m<=3, n=3 m<=2 x 3 vertex orders, max_iter in {1,2,3,5,20}; H: 3 calls"},
 }
 
@@ -96,6 +96,8 @@ def run_chunk(chunk, tier, seed):
                             if tier == "quick" and vo != vos[0] and mi != 1:
                                 continue  # quick: permuted vertex lists with a single iteration only
                             _do(acc, {"t": "A", "types": types, "seed": seed, "edges": ms, "fixed": list(fixed), "ffp": ffp, "max_iter": mi, "vorder": vo, "far": False})
+                            if "SE3" in types and vo == vos[0] and (any(fixed) or ffp):
+                                _do(acc, {"t": "A", "types": types, "seed": seed, "edges": ms, "fixed": list(fixed), "ffp": ffp, "max_iter": mi, "vorder": vo, "far": False, "nonunit": True})
     elif sub == "D":
         for ms in F.edge_multisets(len(cands), 1 if n == 3 else 2):
             for fixed in itertools.product((False, True), repeat=n):
@@ -162,6 +164,11 @@ def signature(case, msgs):
 
 def _spec(case, fixed):
     spec = F.make_spec(case["types"], case["seed"], case["edges"], fixed, case["vorder"], None, None)
+    if case.get("nonunit"):
+        # SE(3) vertex quaternions that are only approximately unit (as read from a file written with 4-5 decimals)
+        for k, v in enumerate(spec["vertices"]):
+            if v["kind"] == "SE3":
+                v["pose"] = v["pose"][:3] + [x * (1.0 + 3e-5 * (k + 1)) for x in v["pose"][3:]]
     if case.get("far"):
         for k, v in enumerate(spec["vertices"]):
             d = G.DIM[v["kind"]]
@@ -312,7 +319,9 @@ def _eval_single(case):
     ref_compared = 0
     moved = any(after[i][2] != before[i][2] for i in range(n))
     # (c)/(d) well-posed reduced problem: free vertices solve it, everything finite
-    if not script and not case.get("far") and ref["wellposed"] and outcome == "returned":
+    if case.get("nonunit"):
+        classes.append("nonunit_quaternion_vertices")
+    if not script and not case.get("far") and not case.get("nonunit") and ref["wellposed"] and outcome == "returned":
         if case["max_iter"] == 1:
             ref_compared += 1
             classes.append("reduced_step_checked")
